@@ -148,7 +148,22 @@ func (k *c14pKV) done(op string) {
 
 func (k *c14pKV) Close(ctx context.Context) error { return k.inner.Close(ctx) }
 
+// cancelled answers a call made with an already cancelled context the way the store does ("unable to obtain BBolt ... lock:
+// database error: context canceled") without entering it: go-stoabs' lockWithCancel can wedge the caller for ever (holding
+// the store lock) when the context is cancelled while the lock is handed over. The harness cancels only between store
+// operations, so this is the only way a cancellation reaches the store here.
+func (k *c14pKV) cancelled(ctx context.Context, what string) error {
+	if err := ctx.Err(); err != nil {
+		return fmt.Errorf("unable to obtain BBolt %s lock: %w", what, stoabs.DatabaseError(err))
+	}
+	return nil
+}
+
 func (k *c14pKV) Write(ctx context.Context, fn func(stoabs.WriteTx) error, opts ...stoabs.TxOption) error {
+	if err := k.cancelled(ctx, "write"); err != nil {
+		k.done("Write")
+		return err
+	}
 	err := k.inner.Write(ctx, func(tx stoabs.WriteTx) error {
 		if err := fn(c14pWriteTx{tx, k}); err != nil {
 			return err
@@ -167,18 +182,30 @@ func (k *c14pKV) Write(ctx context.Context, fn func(stoabs.WriteTx) error, opts 
 }
 
 func (k *c14pKV) Read(ctx context.Context, fn func(stoabs.ReadTx) error) error {
+	if err := k.cancelled(ctx, "read"); err != nil {
+		k.done("Read")
+		return err
+	}
 	err := k.inner.Read(ctx, func(tx stoabs.ReadTx) error { return fn(c14pReadTx{tx, k}) })
 	k.done("Read")
 	return err
 }
 
 func (k *c14pKV) WriteShelf(ctx context.Context, shelf string, fn func(stoabs.Writer) error) error {
+	if err := k.cancelled(ctx, "write"); err != nil {
+		k.done("WriteShelf:" + shelf)
+		return err
+	}
 	err := k.inner.WriteShelf(ctx, shelf, fn)
 	k.done("WriteShelf:" + shelf)
 	return err
 }
 
 func (k *c14pKV) ReadShelf(ctx context.Context, shelf string, fn func(stoabs.Reader) error) error {
+	if err := k.cancelled(ctx, "read"); err != nil {
+		k.done("ReadShelf:" + shelf)
+		return err
+	}
 	err := k.inner.ReadShelf(ctx, shelf, fn)
 	k.done("ReadShelf:" + shelf)
 	return err
